@@ -25,6 +25,53 @@ def _run(job):
             "res": {k: v for k, v in res.items() if k not in ("events", "xform")}, "trace": [ev]}
 
 
+def _run_free(job):
+    """any workbook -> the source-free itext facts of its XForm (PROP=C07free)"""
+    from harness import itextgen, render
+
+    inp, kw = render.render(job["wb"], job.get("fmt", "dict"))
+    kw.update(job.get("kwargs") or {})
+    res = conv.convert_case({"input": inp, "kwargs": kw, "events": False})
+    ev = {"ev": "itext", "status": res["status"], "src": {"dl": "", "cells": []},
+          "obs": {"present": False, "langs": [], "defaults": [], "dup_ids": [], "ids": [], "refs": [], "eff": []}}
+    if res["status"] == "ok":
+        ev["obs"] = itextgen.observe_free(res["xform"])
+    return {"tag": job["tag"], "fmt": job.get("fmt", "dict"), "wb": job["wb"], "kwargs": job.get("kwargs"), "res": {k: v for k, v in res.items() if k not in ("events", "xform")}, "trace": [ev]}
+
+
+def foreign_forms(rep, prop):
+    """Forms this property's own generator does not produce: the frozen test-suite corpus, TLC row structures decorated with every feature,
+    every pair of JSON-IR features, choice configurations with translated lists.  Judged by the closure clauses that need no source."""
+    from harness import choicegen, formgen, jsongen, suitecorpus
+
+    jobs = [{"wb": j["wb"], "fmt": "dict", "kwargs": j.get("kwargs"), "tag": j["tag"]} for j in suitecorpus.doc_jobs(())]
+    shapes, _ = corpus.gen_shapes("ok", 3)
+    for i, c in enumerate(corpus.pick(shapes, 600 if rep.tier == "quick" else 6000, rep.seed)):
+        f = formgen.decorate(c["rows"], seed=rep.seed + i, feat=corpus.ALL_FEAT)
+        jobs.append({"wb": f.wb(), "fmt": "dict" if i % 5 else "md", "tag": {"shapes": c["rows"], "decorated": i}})
+    feats = sorted(jsongen.ALL_FEATURES)
+    for i, a in enumerate(feats):
+        for b in feats[i:]:
+            jobs.append({"wb": jsongen.build(sorted({a, b})), "fmt": "dict", "tag": {"features": sorted({a, b})}})
+    outs = conv.map_cases(_run_free, jobs, chunksize=16)
+    for o in outs:
+        if o.get("status") == "harness_error":
+            raise tlc.MachineryError(o["message"] + "\n" + o.get("tb", ""))
+    sub = [o for o in outs if o["res"]["status"] == "ok"]
+    cfg = corpus._cfg("Trace_Itext.cfg", TRACE_CFG)
+    acc, info = tlc.validate_traces("Trace_Itext", cfg, [o["trace"] for o in sub], shards=8, env={"PROP": prop + "free"}, tag=f"tr{prop}free")
+    rep.traces_validated += len(acc)
+    rep.extra.setdefault("trace_runs", []).append({"source": "forms of other generators and the frozen test-suite corpus (source-free closure clauses)", "forms": len(outs),
+                                                   "traces": len(sub), "accepted": len(acc), "with_itext": sum(1 for o in sub if o["trace"][0]["obs"]["present"]), "wall_s": round(info["wall"], 1)})
+    for i, o in enumerate(sub):
+        rep.case({"foreign": o["tag"]}, nontrivial=o["trace"][0]["obs"]["present"])
+        if i in acc:
+            continue
+        l, clause = info["progress"].get(i, (0, "unexplained_event"))
+        rep.violation(f"{prop}:{clause}:foreign", f"clause {clause}; form={o['tag']} obs_langs={o['trace'][0]['obs']['langs']} refs={o['trace'][0]['obs']['refs'][:6]}"[:500],
+                      {"foreign": True, "tag": o["tag"], "fmt": o["fmt"], "wb": o["wb"], "kwargs": o["kwargs"], "clause": clause})
+
+
 def generate(rep):
     tier = rep.tier
     plans = [("core", True, 2, None)] if tier == "quick" else [("core", True, 3, 60000), ("all", False, 2, None)]
@@ -82,6 +129,8 @@ def run(rep, prop, canary_fn, classify):
                       {"case": o["case"], "seed": o["seed"], "fmt": o["fmt"], "clause": clause, "wb": o["wb"], "obs": o["trace"][0]["obs"]})
     for o in outs[100:102]:
         rep.sample({"matrix": o["case"], "obs_langs": o["trace"][0]["obs"]["langs"], "eff": o["trace"][0]["obs"]["eff"][:4]})
+    if prop == "C07":
+        foreign_forms(rep, prop)
     ok = [o for i, o in enumerate(outs) if i in acc]
     cans = canary_fn(ok)
     a, _ = tlc.validate_traces("Trace_Itext", cfg, [c[1] for c in cans[:-1]] + [cans[-1][1]], shards=1, env={"PROP": prop}, tag="canary")
@@ -93,6 +142,14 @@ def run(rep, prop, canary_fn, classify):
 
 def replay(rep, prop, case, classify):
     c = case["case"]
+    if c.get("foreign"):
+        o = _run_free({"wb": c["wb"], "fmt": c.get("fmt", "dict"), "kwargs": c.get("kwargs"), "tag": c.get("tag")})
+        acc, info = tlc.validate_traces("Trace_Itext", corpus._cfg("Trace_Itext.cfg", TRACE_CFG), [o["trace"]], shards=1, env={"PROP": prop + "free"}, tag="replay")
+        rep.traces_validated += len(acc)
+        rep.case({"foreign": c.get("tag")})
+        if 0 not in acc:
+            rep.violation(f"{prop}:{info['progress'].get(0, (0, '?'))[1]}:foreign", "replay", c)
+        return
     outs = [_run({"case": c["case"], "seed": c.get("seed", 0), "fmt": c.get("fmt", "dict")})]
     cfg = corpus._cfg("Trace_Itext.cfg", TRACE_CFG)
     acc, info = tlc.validate_traces("Trace_Itext", cfg, [o["trace"] for o in outs], shards=1, env={"PROP": prop}, tag="replay")
